@@ -73,6 +73,36 @@ CLAIMS['C19'] = dict(
     'form of the marking conditions',
     engine='E6-mesh')
 
+CLAIMS['C02'] = dict(
+    category='other',
+    text='Decides, on every run, the premises of the inductive invariant '
+    'J1-J7 (DESIGN.md A.1): write-ownership frame, symmetric twin stores, '
+    'half-edge cross links, flag inheritance, symbolic geometry of both '
+    'child constructions (chain, tiling, each edge object used once, level '
+    '+1 in the refined axis only), leaf and index bookkeeping, closure '
+    'shape (all edges, strictly lower, same axis, before any mutation), '
+    'vertex reuse, initial tensor wiring, and stale-handle analysis of the '
+    'uniform drivers.  The induction itself is a paper argument.',
+    design_ref='DESIGN.md section 3 E6, section 4 C02, appendix A.1/A.2',
+    note='Trusted: ast, the paper induction.  Not decided: minimality of the '
+    'closure for every history; strict monotonicity of user grids.',
+    technique='who-may-write (ownership) check, pairing/ordering rules, '
+    'symbolic child-geometry evaluation, handle-provenance analysis over the '
+    'AST', engine='E6-mesh')
+CLAIMS['C10'] = dict(
+    category='other',
+    text='Decides the premises of the half-edge invariants J4-J6: symmetric '
+    'twin stores, cross-link i <-> 1-i, inheritance of boundary/glue flags, '
+    'the four-case lookup ladder of neighbour_elements under exactly the '
+    'right path conditions, initial wiring of interior twins / boundary '
+    'flags / per-slab seam, ownership of the half-edge state.  The '
+    'geometric statement follows on paper.',
+    design_ref='DESIGN.md section 3 E6, section 4 C10, appendix A.1',
+    note='Trusted: ast, the paper argument J4-J6 => geometric neighbours.  '
+    'Not decided: the history-quantified statement itself.',
+    technique='pairing / cross-link / typestate-of-lookup rules on the AST '
+    'with boolean path facts', engine='E6-mesh')
+
 PENDING = 'rule set not yet implemented in this build (see DESIGN.md Appendix F for the order)'
 NA = {
     'C13':
